@@ -12,15 +12,31 @@
    [finish] = the announcement of the node's tip is processed ("after catching up").
    Environment assumptions: [wf_history_gen] of Ledger/WF.v, as for C01.
    [crashes_safe] ([safe_point] at every crash point) excludes two kinds of crash points from the
-   general theorems: those at which Start takes the fast-forward branch although the node was
+   theorems T2-T4: those at which Start takes the fast-forward branch although the node was
    reorganised below the stored tip (no wallet ready, node more than ff blocks long: the code then
    writes sync records on top of an abandoned tip), and those at which the node has been
-   reorganised back to its bare genesis while the wallet is ahead of it (see the report). *)
-From Coq Require Import List ZArith NArith Bool.
+   reorganised back to its bare genesis while the wallet is ahead of it.
+   T6-T8 (C06_crash_equiv_general, C06_crash_equiv_at, C06_restart_any_chain; proofs in
+   Ledger/CrashProofs2.v) have NO premise on the crash points: the fast-forward over a stale fork
+   leaves sync records of the abandoned fork under those of the node's chain, but no wallet
+   existed when they were written, so the blocks they name pay nobody and a later reorganisation
+   that finds its fork point among them rolls back to an empty ledger; the bare-genesis case is
+   covered under the environment assumption [genesis_prev_free] (the genesis block's
+   previous-hash field, the zero hash, is no other block's hash).
+   T9-T10 (C06_import_resumes, C06_removal_resumes; Ledger/Resume.v, ResumeProofs.v): the STEPS of
+   the background tasks resume (T5 is about the queue only).
+   LIMIT of T6-T8, and a defect of the code: in Ledger/Crash.v "no wallet is ready"
+   ([no_ready_wallet]) is "no address has been issued" — the process model has no wallet that is
+   being imported.  In the code the fast-forward is also taken when the only wallets are being
+   imported; their credits up to the rescan cursor are in the store, and a fast-forward over a
+   stale fork neither rolls them back nor pulls the cursor back: C06_ff_stale_import_refuted
+   (Ledger/ResumeFF.v; reproduced on the real code, see there). *)
+From Coq Require Import List ZArith NArith Bool Lia.
 Import ListNotations.
 Open Scope Z_scope.
 Require Import MW.Ledger.Model MW.Ledger.Spec MW.Ledger.Run MW.Ledger.WF MW.Ledger.Proofs5 MW.Ledger.Proofs6.
 Require Import MW.Ledger.Crash MW.Ledger.CrashProofs.
+Require Import MW.Ledger.Crash2 MW.Ledger.CrashProofs2.
 
 (* T1 "loses nothing": at every point of a well-formed history the volatile state is a function
    of the store — what the restart rebuilds is what the running process had *)
@@ -51,8 +67,9 @@ Theorem C06_restart_on_tip : forall p ff g h bt k pr1 pre post,
 Proof. exact restart_on_tip. Qed.
 Print Assumptions C06_restart_on_tip.
 
-(* T4 = C06: every commit boundary of every history as the crash point, repeated crashes
-   included: the run with crashes completes, and once the node's tip announcement is processed
+(* T4 (subsumed by T6, which has no [crashes_safe] premise): every commit boundary of every
+   history as the crash point, repeated crashes included: the run with crashes completes, and
+   once the node's tip announcement is processed
    every wallet's report equals that of the run that never stopped — and is exactly what the
    node's best chain pays to the wallet's addresses and has not spent *)
 Theorem C06_crash_equiv : forall p tipfix ff g h bt ks,
@@ -84,6 +101,57 @@ Example C06_tasks_example :
   t_queue (trun {| t_status := []; t_queue := [] |} es) = [2; 3]%N /\
   t_queue (treopen (trun {| t_status := []; t_queue := [] |} es)) = [2; 3]%N.
 Proof. cbv zeta. split; [cbn; repeat split; intros H; repeat (destruct H as [H|H]; [discriminate|]); exact H|split; vm_compute; reflexivity]. Qed.
+
+(* ---------------------------------------------------------------- general form *)
+
+(* T6 = C06: every commit boundary of every history as the crash point, repeated crashes
+   included, NO premise on the crash points, for the code as found and as repaired, any
+   fast-forward distance: every restart succeeds ("the wallet opens"), and once the node's tip
+   announcement is processed every wallet's report equals that of the run that never stopped —
+   and is exactly what the node's best chain pays to the wallet's addresses and has not spent *)
+Theorem C06_crash_equiv_general : forall p tipfix ff g h bt ks,
+  wf_history_gen p true g (h ++ [EvProcess bt]) ->
+  last (s_node (run p true g h)) g = bt ->
+  genesis_prev_free g (g :: blocks_of_history (h ++ [EvProcess bt])) ->
+  exists pr', crashes p tipfix ff g ks (init_proc g) h = Some pr' /\
+    forall w, observe (finish p g pr') w = observe (finish p g (prun p (init_proc g) h)) w /\
+              observe (finish p g pr') w =
+              spec_report p (own_of (s_own (run p true g h))) (s_node (run p true g h)) w.
+Proof. exact crash_equiv_general. Qed.
+Print Assumptions C06_crash_equiv_general.
+
+(* T7: the same for crashes at ARBITRARY instants ([crashes_at]: the process runs j1 events of any
+   kind, stops, is restarted, runs j2 more events, ...): the node may move — grow, shrink, be
+   reorganised at any depth — between the wallet's last commit and the restart (the outage), and
+   the history goes on afterwards *)
+Theorem C06_crash_equiv_at : forall p tipfix ff g h bt js,
+  wf_history_gen p true g (h ++ [EvProcess bt]) ->
+  last (s_node (run p true g h)) g = bt ->
+  genesis_prev_free g (g :: blocks_of_history (h ++ [EvProcess bt])) ->
+  exists pr', crashes_at p tipfix ff g js (init_proc g) h = Some pr' /\
+    forall w, observe (finish p g pr') w = observe (finish p g (prun p (init_proc g) h)) w /\
+              observe (finish p g pr') w =
+              spec_report p (own_of (s_own (run p true g h))) (s_node (run p true g h)) w.
+Proof. exact crash_equiv_at. Qed.
+Print Assumptions C06_crash_equiv_at.
+
+(* T8: restart at ANY point of a history (any prefix [pre]: after any commit and any node events
+   since — the node on any other well-formed chain, longer, shorter, forked at any depth — and
+   after any earlier crashes [ks]): as repaired, Start succeeds, the node and the issued addresses
+   are untouched, the stored tip is the node's tip and every wallet's report is the
+   specification of the node's chain as soon as Start has returned *)
+Theorem C06_restart_any_chain : forall p tipfix ff g h bt ks pre post pr1,
+  wf_history_gen p true g (h ++ [EvProcess bt]) ->
+  genesis_prev_free g (g :: blocks_of_history (h ++ [EvProcess bt])) ->
+  h = pre ++ post ->
+  crashes p tipfix ff g ks (init_proc g) pre = Some pr1 ->
+  s_node (pr_sim pr1) = s_node (run p true g pre) /\ s_own (pr_sim pr1) = s_own (run p true g pre) /\
+  exists pr2, restart p true ff g pr1 = Some pr2 /\
+    s_node (pr_sim pr2) = s_node (pr_sim pr1) /\ s_own (pr_sim pr2) = s_own (pr_sim pr1) /\
+    snd (tip (s_wallet (pr_sim pr2))) = b_id (last (s_node (pr_sim pr1)) g) /\
+    forall w, observe pr2 w = spec_report p (own_of (s_own (pr_sim pr1))) (s_node (pr_sim pr1)) w.
+Proof. exact restart_any_chain. Qed.
+Print Assumptions C06_restart_any_chain.
 
 (* ---------------------------------------------------------------- the code as found *)
 
@@ -175,3 +243,247 @@ Proof.
   - right. split; [discriminate|]. exists [g0; blk1c], [blk2c; blk3c]. split; [discriminate|split; reflexivity].
   - left. discriminate.
 Qed.
+
+(* ---------------------------------------------------------------- non-vacuity of T6-T8 *)
+
+(* The fast-forward over a STALE fork (ff = 1 so that a few blocks suffice).  No wallet exists.
+   Block 1 is processed; the node abandons it and grows to 1c-2c-3c-4c (3 blocks ahead of the
+   wallet, on another branch); the process is down meanwhile and restarts then: Start writes the
+   sync record of 2c on top of that of block 1 (fast-forward), then processes 3c and 4c.  A wallet
+   is created, block 5c pays it, crash and restart; the node then returns to the abandoned fork
+   (block 1 again, 2a paying the wallet): the reorganisation finds its fork point in the stale
+   record of block 1. *)
+Definition blk4c : block := {| b_id := 14; b_prev := 13; b_height := 4;
+  b_txs := [ {| t_id := 14; t_cb := true; t_ins := []; t_outs := [] |} ] |}.
+Definition blk5c : block := {| b_id := 15; b_prev := 14; b_height := 5;
+  b_txs := [ {| t_id := 15; t_cb := true; t_ins := []; t_outs := [ {| o_sh := 7; o_val := 6; o_class := CStd |} ] |} ] |}.
+Definition blk2a : block := {| b_id := 22; b_prev := 1; b_height := 2;
+  b_txs := [ {| t_id := 22; t_cb := true; t_ins := []; t_outs := [ {| o_sh := 7; o_val := 4; o_class := CStd |} ] |} ] |}.
+Definition h_sf1 : list event :=
+  [EvAttach blk1; EvProcess blk1; EvDetach; EvAttach blk1c; EvAttach blk2c; EvAttach blk3c; EvAttach blk4c].
+Definition h_sf2 : list event := [EvOwner 7 1; EvAttach blk5c; EvProcess blk5c].
+Definition h_sf3 : list event := [EvDetach; EvDetach; EvDetach; EvDetach; EvDetach; EvAttach blk1; EvAttach blk2a].
+Definition h_sf : list event := h_sf1 ++ h_sf2 ++ h_sf3.
+
+Lemma h_sf_wf : wf_history_gen p0 true g0 (h_sf ++ [EvProcess blk2a]).
+Proof. apply wf_history_gen_b_sound. vm_compute. reflexivity. Qed.
+Print Assumptions h_sf_wf.
+
+Lemma h_sf_gpf : genesis_prev_free g0 (g0 :: blocks_of_history (h_sf ++ [EvProcess blk2a])).
+Proof.
+  apply genesis_prev_free_b_sound; [apply (wfg_blockids _ _ _ _ h_sf_wf)|left; reflexivity|vm_compute; reflexivity].
+Qed.
+Print Assumptions h_sf_gpf.
+
+(* the hypotheses of T6-T8 hold; the first crash point (the end of h_sf1) is NOT a [safe_point]:
+   Start takes the fast-forward branch and the stored tip (block 1) is not on the node's chain *)
+Example C06_stale_fork_hypotheses :
+  wf_history_gen p0 true g0 (h_sf ++ [EvProcess blk2a]) /\
+  last (s_node (run p0 true g0 h_sf)) g0 = blk2a /\
+  genesis_prev_free g0 (g0 :: blocks_of_history (h_sf ++ [EvProcess blk2a])) /\
+  (let pr1 := prun p0 (init_proc g0) h_sf1 in
+   no_ready_wallet pr1 && (1 <? chain_height (s_node (pr_sim pr1))) = true /\
+   synced (s_wallet (pr_sim pr1)) = [(1, 1%N); (0, 0%N)] /\
+   map b_id (s_node (pr_sim pr1)) = [0; 11; 12; 13; 14]%N /\
+   ~ safe_point g0 1 pr1 /\
+   ~ crashes_safe p0 true 1 g0 [5%nat] (init_proc g0) h_sf1).
+Proof.
+  split; [exact h_sf_wf|]. split; [vm_compute; reflexivity|]. split; [exact h_sf_gpf|].
+  cbv zeta. split; [vm_compute; reflexivity|]. split; [vm_compute; reflexivity|]. split; [vm_compute; reflexivity|].
+  assert (Hns : ~ safe_point g0 1 (prun p0 (init_proc g0) h_sf1)).
+  { intros [[Hc|[_ [c [m [Hc [Hn Hsy]]]]]] _]; [vm_compute in Hc; discriminate|].
+    vm_compute in Hn, Hsy.
+    destruct c as [|a [|b [|x c']]]; try (apply (f_equal (@length _)) in Hsy; cbn in Hsy; rewrite ?app_length in Hsy; cbn in Hsy; lia).
+    cbn in Hsy, Hn. inversion Hn. subst b. cbn in Hsy. discriminate. }
+  split; [exact Hns|].
+  intros Hs. cbn [crashes_safe] in Hs.
+  change (cut p0 5 (init_proc g0) h_sf1) with (prun p0 (init_proc g0) h_sf1, h_sf1, @nil event) in Hs.
+  destruct Hs as [Hs _]. exact (Hns Hs).
+Qed.
+
+(* what happens: after the first restart the sync records mix the abandoned block 1 with the node's
+   chain, and every report is nevertheless the specification; after the second restart and the
+   return to the abandoned fork the wallet is on the node's chain with the right coin *)
+Example C06_stale_fork_restart :
+  match restart p0 true 1 g0 (prun p0 (init_proc g0) h_sf1) with
+  | Some pr2 =>
+      synced (s_wallet (pr_sim pr2)) = [(4, 14%N); (3, 13%N); (2, 12%N); (1, 1%N); (0, 0%N)] /\
+      observe pr2 1%N = spec_report p0 (own_of (s_own (pr_sim pr2))) (s_node (pr_sim pr2)) 1%N
+  | None => False
+  end /\
+  match crashes_at p0 true 1 g0 [7%nat; 3%nat] (init_proc g0) h_sf with
+  | Some pr' =>
+      synced (s_wallet (pr_sim (finish p0 g0 pr'))) = [(2, 22%N); (1, 1%N); (0, 0%N)] /\
+      r_total (observe (finish p0 g0 pr') 1%N) = 4 /\
+      observe (finish p0 g0 pr') 1%N = observe (finish p0 g0 (prun p0 (init_proc g0) h_sf)) 1%N
+  | None => False
+  end.
+Proof. split; vm_compute; repeat split; reflexivity. Qed.
+
+(* the node reorganised back to its bare genesis while the wallet is ahead (the other case the
+   [safe_point] premise excluded): Start announces the genesis block, the wallet rolls back *)
+Example C06_bare_genesis_restart :
+  let pr1 := prun p0 (init_proc g0) [EvOwner 9 1; EvAttach blk1; EvProcess blk1; EvDetach] in
+  ~ safe_point g0 2000 pr1 /\
+  match restart p0 true 2000 g0 pr1 with
+  | Some pr2 => synced (s_wallet (pr_sim pr2)) = [(0, 0%N)] /\ r_total (observe pr1 1%N) = 5 /\
+                observe pr2 1%N = spec_report p0 (own_of (s_own (pr_sim pr2))) [g0] 1%N
+  | None => False
+  end.
+Proof.
+  cbv zeta. split.
+  - intros [_ [H|H]]; [apply H; vm_compute; reflexivity|vm_compute in H; discriminate].
+  - vm_compute. repeat split; reflexivity.
+Qed.
+
+(* ---------------------------------------------------------------- T9-T10: the steps of the background tasks resume *)
+
+(* Model: Ledger/Import.v, Ledger/Remove.v (the multi-wallet store: persistent fields and the
+   volatile ones a crash loses, [x_dead] and [x_p1]) and Ledger/Resume.v: the background task of
+   wallet w at commit granularity — [SBatch n]: one asyncImport batch (cursor in the status
+   record), [SStep n all]: the next commit of asyncRemove (phase 1 if not yet done in this process
+   run, else one phase-2 round), [SProc n b]: the handler processes the announcement of b (live or
+   by Start's catch-up), every step with its own node chain n (the chain may move at any time),
+   [SReopen]: crash + reopen ([xreopen] = the state XRestart of Remove.v starts from);
+   [erase false es] = the run that never crashed (the crashes dropped and, for a removal, the
+   phase 1 that the re-created task redoes); [peq a b] = a and b have the same persistent state. *)
+Require Import MW.Ledger.Import MW.Ledger.Remove MW.Ledger.RemoveProofs MW.Ledger.ImportProofs.
+Require Import MW.Ledger.Resume MW.Ledger.ResumeProofs.
+Require MW.Ledger.ResumeExamples.
+
+(* T9: a restore interrupted by crashes after ANY of its committed batches (any number of crashes,
+   any batch size B, any store, the node's chain different at every step, announcements processed
+   in between — the chain moved during the outage and Start caught up): same persistent state as
+   the restore that was never interrupted.  Premises: the repaired worker (a failed batch is
+   retried, not dropped) and the task has not been dropped before. *)
+Theorem C06_import_resumes : forall fx p B cap w es st,
+  f_import_retry fx = true -> memN w (x_dead st) = false ->
+  (forall e, In e es -> is_step e = false) ->
+  peq (srun fx p B cap w st es) (srun fx p B cap w st (filter (fun e => negb (is_reopen e)) es)).
+Proof. exact import_resumes. Qed.
+Print Assumptions C06_import_resumes.
+
+(* ... and in the event system of C07/C08 with the REAL restart (reopen + Start), on a static
+   well-formed chain, for the code as found as well: any interleaving of batches and restarts is
+   the uninterrupted rescan with the same number of batches; no restart fails; after enough
+   batches the wallet is ready with exactly the ledger of a wallet that followed the chain live *)
+Theorem C06_import_resumes_xrun : forall fx p B cap c w own st0 es all,
+  wf_chain c -> 0 < B -> importing p c w own 0 st0 ->
+  (forall e, In e es -> e = XBatch w \/ e = XRestart) ->
+  let s := fold_left (xstep fx p B cap) es {| xs_node := c; xs_st := st0; xs_all := all; xs_crashed := false |} in
+  (peq (xs_st s) (batches fx p B c st0 w (count_batches w es)) /\ xs_crashed s = false /\ xs_node s = c) /\
+  (chain_height c < Z.of_nat (count_batches w es) * B ->
+   Import.status_of (xs_st s) w = Some Import.WReady /\
+   ledger_of_chain p true own c = Ok (x_w (xs_st s)) /\
+   xreport (xs_st s) w = spec_report p own c w).
+Proof. exact import_resumes_xrun_both. Qed.
+Print Assumptions C06_import_resumes_xrun.
+
+(* T10: a removal interrupted by crashes after phase 1 or after ANY of its committed rounds (any
+   number of crashes, any cap, any store, announcements processed in between): same persistent
+   state as the removal that was never interrupted; if that one has erased the wallet so has the
+   interrupted one, and everything observable agrees.  Premise when announcements are processed
+   in between: the repaired Rollback (as found, a reorganisation during the removal re-creates
+   rows of the wallet which only a restarted task deletes: ResumeExamples.removal_as_found_rollback_refuted) *)
+Theorem C06_removal_resumes : forall fx p B cap w es st0,
+  f_rollback fx = true ->
+  Import.status_of st0 w = Some Import.WRemoving -> is_some (lookupN (x_pass st0) w) = true ->
+  (forall e, In e es -> is_batch e = false) ->
+  let crashed := srun fx p B cap w (remove_phase1 st0 w) es in
+  let straight := srun fx p B cap w (remove_phase1 st0 w) (erase false es) in
+  peq crashed straight /\
+  (Import.status_of straight w = None -> Import.status_of crashed w = None) /\
+  (forall shs, mentions crashed w shs = mentions straight w shs) /\
+  (forall v, xreport crashed v = xreport straight v).
+Proof. exact removal_resumes. Qed.
+Print Assumptions C06_removal_resumes.
+
+(* ... with no announcement processed in between: the code as found as well *)
+Theorem C06_removal_resumes_static : forall fx p B cap w es st0,
+  Import.status_of st0 w = Some Import.WRemoving -> is_some (lookupN (x_pass st0) w) = true ->
+  (forall e, In e es -> is_batch e = false /\ is_proc e = false) ->
+  let crashed := srun fx p B cap w (remove_phase1 st0 w) es in
+  let straight := srun fx p B cap w (remove_phase1 st0 w) (erase false es) in
+  peq crashed straight /\
+  (Import.status_of straight w = None -> Import.status_of crashed w = None) /\
+  (forall shs, mentions crashed w shs = mentions straight w shs) /\
+  (forall v, xreport crashed v = xreport straight v).
+Proof. exact removal_resumes_static. Qed.
+Print Assumptions C06_removal_resumes_static.
+
+(* both at once, any mix of steps *)
+Theorem C06_task_resumes : forall fx p B cap w es st,
+  f_import_retry fx = true -> f_rollback fx = true -> memN w (x_dead st) = false ->
+  (Import.status_of st w = Some Import.WRemoving ->
+     memN w (x_p1 st) = true /\ no_residue st w /\ is_some (lookupN (x_pass st) w) = true) ->
+  peq (srun fx p B cap w st es) (srun fx p B cap w st (erase false es)).
+Proof. exact task_resumes. Qed.
+Print Assumptions C06_task_resumes.
+
+(* the task is re-created: the queue Start rebuilds from the status records ([rebuild_queue] =
+   initTaskChan; true = removal) holds exactly the wallets still importing / flagged for removal,
+   and depends on the persistent state only *)
+Theorem C06_queue_rebuilt : forall st w, NoDup (map fst (x_status st)) ->
+  ((In (w, false) (rebuild_queue st) <-> exists k, Import.status_of st w = Some (Import.WImporting k)) /\
+   (In (w, true) (rebuild_queue st) <-> Import.status_of st w = Some Import.WRemoving)) /\
+  rebuild_queue (xreopen st) = rebuild_queue st.
+Proof. exact queue_rebuilt. Qed.
+Print Assumptions C06_queue_rebuilt.
+
+(* non-vacuity (Ledger/ResumeExamples.v): a restore with batch size 2 crashed after its first batch,
+   block 5 processed by the catch-up; a removal with cap 1 of a wallet owning three credits crashed
+   after round 1 and after round 2, block 4 processed in between *)
+Example C06_import_resumes_example :
+  let crashed := srun repaired ResumeExamples.p0 2 1 1 ResumeExamples.st_imp ResumeExamples.es_imp in
+  let straight := srun repaired ResumeExamples.p0 2 1 1 ResumeExamples.st_imp (erase false ResumeExamples.es_imp) in
+  (forall e, In e ResumeExamples.es_imp -> is_step e = false) /\
+  Import.status_of (srun repaired ResumeExamples.p0 2 1 1 ResumeExamples.st_imp [SBatch ResumeExamples.chain5]) 1 = Some (Import.WImporting 2) /\
+  crashed = straight /\ Import.status_of crashed 1 = Some Import.WReady /\
+  xreport crashed 1 = spec_report ResumeExamples.p0 (key_owner crashed) ResumeExamples.chain6 1.
+Proof.
+  cbv zeta. split; [intros e He; repeat (destruct He as [<-|He]; [reflexivity|]); destruct He|].
+  vm_compute. repeat split; reflexivity.
+Qed.
+
+Example C06_removal_resumes_example :
+  let st0 := xs_st ResumeExamples.s_rm in
+  let run := srun repaired ResumeExamples.p0 2 1 1 (remove_phase1 st0 1) in
+  Import.status_of st0 1 = Some Import.WRemoving /\ is_some (lookupN (x_pass st0) 1) = true /\
+  (forall e, In e ResumeExamples.es_rm -> is_batch e = false) /\
+  x_p1 (remove_phase1 st0 1) = [1%N] /\
+  ResumeExamples.wcredits (remove_phase1 st0 1) 1 = 3%nat /\
+  run ResumeExamples.es_rm = run (erase false ResumeExamples.es_rm) /\
+  Import.status_of (run ResumeExamples.es_rm) 1 = None /\ mentions (run ResumeExamples.es_rm) 1 [1%N] = false.
+Proof.
+  cbv zeta. split; [vm_compute; reflexivity|]. split; [vm_compute; reflexivity|].
+  split; [intros e He; repeat (destruct He as [<-|He]; [reflexivity|]); destruct He|].
+  vm_compute. repeat split; reflexivity.
+Qed.
+
+(* ---------------------------------------------------------------- the fast-forward while a wallet is being imported *)
+
+(* Start's fast-forward on the multi-wallet layer ([start_sync_ff], Ledger/ResumeFF.v: SetSyncedTo
+   for all but the last ff heights when no wallet is READY, then Remove.v's Start).  Batch size 2,
+   ff = 2: the wallet is restored on chain A (blocks 1 and 2 pay it 5 and 7); the process stops after
+   the first rescan batch (cursor 2); the node abandons blocks 2..4 and grows to height 8 on a
+   branch that never pays the wallet; restart: the fast-forward writes the node's sync records on
+   top of the abandoned ones, the coin of the abandoned block 2 stays, the cursor stays at 2, the
+   rescan finishes: the wallet is ready and reports 12 where the chain pays 5.  Without the
+   fast-forward (ff = 2000) the same restart processes the reorganisation and ends correct.
+   Reproduced on the real code with batch 1000 / ff 2000 (harness/cmd/ffprobe in the working copy). *)
+Require MW.Ledger.ResumeFF.
+Theorem C06_ff_stale_import_refuted :
+  Import.status_of ResumeFF.stF1 1 = Some (Import.WImporting 2) /\ ResumeFF.has_ready ResumeFF.stF1 = false /\
+  synced (x_w ResumeFF.stF1) = [(4, 4%N); (3, 3%N); (2, 2%N); (1, 1%N); (0, 0%N)] /\
+  ResumeFF.start_sync_ff repaired ResumeFF.pF 2 ResumeFF.chainC (xreopen ResumeFF.stF1) = XOk (ResumeFF.stF2 2) /\
+  synced (x_w (ResumeFF.stF2 2)) =
+    [(8, 18%N); (7, 17%N); (6, 16%N); (5, 15%N); (4, 4%N); (3, 3%N); (2, 2%N); (1, 1%N); (0, 0%N)] /\
+  Import.status_of (ResumeFF.stF2 2) 1 = Some (Import.WImporting 2) /\
+  Import.status_of (ResumeFF.stF3 2) 1 = Some Import.WReady /\ fst (tip (x_w (ResumeFF.stF3 2))) = 8 /\
+  r_total (xreport (ResumeFF.stF3 2) 1) = 12 /\
+  r_total (spec_report ResumeFF.pF (key_owner (ResumeFF.stF3 2)) ResumeFF.chainC 1) = 5 /\
+  Import.status_of (ResumeFF.stF2 2000) 1 = Some (Import.WImporting 1) /\
+  Import.status_of (ResumeFF.stF3 2000) 1 = Some Import.WReady /\
+  xreport (ResumeFF.stF3 2000) 1 = spec_report ResumeFF.pF (key_owner (ResumeFF.stF3 2000)) ResumeFF.chainC 1.
+Proof. exact ResumeFF.ff_stale_import_refuted. Qed.
+Print Assumptions C06_ff_stale_import_refuted.
